@@ -271,7 +271,17 @@ func runC13(r *Run) {
 				okDom := false
 				if ld != nil {
 					li := ld.(ssa.Instruction)
-					okDom = dom(incr.Block(), li.Block()) && (incr.Block() != li.Block() || idxIn(incr) < idxIn(li))
+					if li.Parent() != incr.Parent() {
+						// the counter is read in a helper (the rate computed by a function of its own): the read happens at the call
+						var own []callSite
+						withoutHelpers(func() { own = callsIn(incr.Parent(), false) })
+						for _, c := range own {
+							if c.Common.StaticCallee() == li.Parent() && c.Value() != nil && dependsOn(br.If.Cond, func(v ssa.Value) bool { return v == c.Value() }) != nil {
+								li = c.Instr
+							}
+						}
+					}
+					okDom = li.Parent() == incr.Parent() && dom(incr.Block(), li.Block()) && (incr.Block() != li.Block() || idxIn(incr) < idxIn(li))
 				}
 				r.check(okDom, name+":reject-reads-post-increment", r.pos(br.If), "the counter read for the rejection is dominated by the increment", "the rejection compares a counter value read before the increment (one extra request per window)")
 			}
@@ -303,7 +313,7 @@ func runC13(r *Run) {
 				// … and the delete is decided by that re-read value
 				if okD {
 					okD = false
-					for _, br := range branchesInOne(f) {
+					for _, br := range branchesInOne(d.Instr.Parent()) {
 						if dependsOn(br.If.Cond, func(v ssa.Value) bool {
 							lk, ok := v.(*ssa.Lookup)
 							return ok && sameValue(lk.X, m)
@@ -570,7 +580,11 @@ func runC13(r *Run) {
 			b, ok := t.Underlying().(*types.Basic)
 			return ok && b.Info()&types.IsFloat != 0
 		}
-		for _, b := range h.Blocks {
+		var r16blocks []*ssa.BasicBlock
+		for _, g := range append([]*ssa.Function{h}, helpersOf(h)...) {
+			r16blocks = append(r16blocks, g.Blocks...)
+		}
+		for _, b := range r16blocks {
 			for _, in := range b.Instrs {
 				mul, ok := in.(*ssa.BinOp)
 				if !ok || mul.Op != token.MUL || !isFloat(mul.Type()) {
